@@ -20,6 +20,8 @@ let rec parse_sop (op : ostring) : sop =
              r_status = zi (ios status); r_obj = OVal (zi (ios seed), []); r_created = zi (ios created); r_updated = zi (ios created);
              r_ver = zi (ios ver); r_reason = N0; r_desc = Z0 }
   | "SF" :: _k :: rest -> (match parse_sop (String.concat "." ("S" :: rest)) with SStore r -> SStoreFail r | _ -> failwith "SF")
+  (* a Store whose outbox entry cannot be encoded (foreign ID not valid UTF-8): fails as a whole *)
+  | "SB" :: rest -> (match parse_sop (String.concat "." ("S" :: rest)) with SStore r -> SStoreFail r | _ -> failwith "SB")
   | ["L"; run; _] -> SLookup (n_of_int (ios run))
   | ["T"; wf; fid; _] -> SLatest (n_of_int (ios wf), n_of_int (ios fid))
   | ["O"; wf; lim] -> SOutbox (n_of_int (ios wf), zi (ios lim))
@@ -65,6 +67,10 @@ let sql_crosscheck (a : ostring list) : unit =
        let k = ios k in let k = if k >= 3 then k + 1 else k in
        (match parse_sop op with SStoreFail r -> let (d, ok) = sql_store !db r (Some (nat_of_int k)) in
           if ok then failwith "extracted sql_store committed a failing Store"; db := d | _ -> ())
+     | "SB" :: _ ->
+       (* the event-encoding step of the model's statement list (position 3) fails *)
+       (match parse_sop op with SStoreFail r -> let (d, ok) = sql_store !db r (Some (nat_of_int 3)) in
+          if ok then failwith "extracted sql_store committed a Store whose entry cannot be encoded"; db := d | _ -> ())
      | "D" :: _ -> (match parse_sop op with SDelOutbox id -> db := { !db with db_outbox = List.filter (fun o -> o.o_id <> id) !db.db_outbox } | _ -> ())
      | _ -> ());
     let (r', _) = ref_step !rs (parse_sop op) in rs := r';
